@@ -193,6 +193,56 @@ Definition sched_step (h : handler) (ss : list session) (acc : world * list ev) 
 Definition run (h : handler) (ss : list session) (ops : list op) : world * list ev :=
   fold_left (sched_step h ss) ops (init_world h ss, []).
 
+(* ---------------------------------------------------------------- chains of throttle handlers *)
+(* Several throttle handlers in one chain: each Handle swaps cx.Conn for its own throttledConn
+   around what is there, so a Read of the next handler goes through the wrappers from the last
+   handler of the chain (outermost) to the first (innermost) and only then reaches the socket.
+   Each stage is a handler with its own world (its total limiter, its per-connection limiters) and
+   its own trace.  The head of the list is the outermost wrapper.  A stage asks the stage below
+   for at most its batch; the bytes come back at the instant of the raw read (tpull), which is
+   what every stage on the way records. *)
+Definition stage := (handler * world * list ev)%type.
+
+(* the instant at which read_step would call the inner Read, and with what size; None when a
+   limiter of this stage rejects or blocks (the stage below is not reached) *)
+Definition ready_time (h : handler) (t1 : Z) (w : world) (o : op) : option (Z * Z) :=
+  let batch := batch_size h (olen o) in
+  let '(_, r1, _) := lim_phase (htotal h) Total (wtotal w) t1 batch in
+  match r1 with
+  | WSleep d1 =>
+      let t2 := t1 + d1 + oj2 o in
+      let '(_, r2, _) := lim_phase (hlocal h) (Local (oc o)) (wlocal w (oc o)) t2 batch in
+      match r2 with WSleep d2 => Some (t2 + d2, batch) | _ => None end
+  | _ => None
+  end.
+
+Definition set_len (o : op) (l : Z) : op :=
+  {| oc := oc o; olen := l; odelay := odelay o; oj2 := oj2 o; oj3 := oj3 o; oavail := oavail o; oerr := oerr o |}.
+Definition set_j3 (o : op) (j : Z) : op :=
+  {| oc := oc o; olen := olen o; odelay := odelay o; oj2 := oj2 o; oj3 := j; oavail := oavail o; oerr := oerr o |}.
+
+(* one Read(p) of the next handler at instant t; jraw: how long the raw socket Read takes *)
+Fixpoint chain_read (ss : list stage) (t : Z) (o : op) (jraw : Z) : list stage * Z :=
+  match ss with
+  | [] => ([], t + jraw)
+  | (h, w, tr) :: rest =>
+      match ready_time h t w o with
+      | Some (trdy, batch) =>
+          let '(rest', tpull) := chain_read rest trdy (set_len o batch) jraw in
+          let '(w', e) := read_step h t w (set_j3 o (tpull - trdy)) in
+          ((h, w', tr ++ e) :: rest', tpull)
+      | None =>
+          let '(w', e) := read_step h t w o in ((h, w', tr ++ e) :: rest, t)
+      end
+  end.
+
+(* a schedule of Reads: (instant of the call, the op, duration of the raw Read) *)
+Definition chain_run (ss : list stage) (reads : list (Z * op * Z)) : list stage :=
+  fold_left (fun ss r => match r with (t, o, j) => fst (chain_read ss t o j) end) reads ss.
+
+Definition chain_init (hs : list handler) (sess : list session) : list stage :=
+  map (fun h => (h, init_world h sess, [])) hs.
+
 (* ---------------------------------------------------------------- in front of the throttled conn *)
 (* layer4.Connection.Read outside matching mode.  Handle swaps cx.Conn for the throttledConn in
    place, so the bytes cx holds already (prefetched by matchers, not yet consumed) stay in front:
